@@ -183,3 +183,49 @@ Proof.
   intros R Hx Hd. destruct (di_done _ (ast_reach_dinv _ _ _ R) _ _ Hx Hd) as [Hg _].
   apply ast_run_frozen; [apply (ast_reach_inv _ _ _ _ R)|apply (ast_reach_nostoreo _ _ _ R)|exact Hx|exact Hg].
 Qed.
+
+(* ------------------------------------------------------------------ C08 on the step model *)
+(* both channels respect their capacity n *)
+Lemma ast_step_chan_bound md n s tid hint :
+  length (ast_tchan s) <= n /\ length (ast_ichan s) <= n ->
+  length (ast_tchan (fst (fst (ast_step md n s tid hint)))) <= n /\
+  length (ast_ichan (fst (fst (ast_step md n s tid hint)))) <= n.
+Proof.
+  intros [H1 H2]. unfold ast_step. destruct (nth_error (ast_thr s) tid) as [th|] eqn:Eth; [|split; assumption].
+  destruct th as [pc prog hs]. unfold ast_step_pc. cbn [ath_pc ath_prog ath_handles].
+  destruct pc;
+    repeat first [progress (unfold ast_wait_ctx; ast_cbn) | match goal with
+    | |- context [match ?x with _ => _ end] => destruct x eqn:?
+    end]; try (split; assumption).
+  all: unfold ast_choose in *; rewrite ?app_length; cbn [length].
+  all: repeat match goal with H : (if ?c then _ else _) = _ |- _ => destruct c eqn:? end; try discriminate.
+  all: repeat match goal with H : (_ <? _) = true |- _ => apply Nat.ltb_lt in H end.
+  all: repeat match goal with H : ?l = _ :: _ |- _ => rewrite H in *; cbn [length] in * end.
+  all: cbn [length] in *; split; lia.
+Qed.
+
+Lemma ast_run_chan_bound md n sched : forall s,
+  length (ast_tchan s) <= n /\ length (ast_ichan s) <= n ->
+  length (ast_tchan (ast_run md n s sched)) <= n /\ length (ast_ichan (ast_run md n s sched)) <= n.
+Proof.
+  induction sched as [|[tid h] r IH]; intros s H; [exact H|]. cbn [ast_run fold_left].
+  apply IH. unfold ast_next. cbn [fst snd]. apply ast_step_chan_bound. exact H.
+Qed.
+
+Lemma ast_steps_channels_bounded md n progs s :
+  ast_reach md n progs s -> length (ast_tchan s) <= n /\ length (ast_ichan s) <= n.
+Proof. intros [sched ->]. apply ast_run_chan_bound. cbn. lia. Qed.
+
+(* a Send is rejected as busy only by its len test, with discardOnBusy set and the task channel full *)
+Lemma ast_steps_busy_only_if_full md n s tid hint :
+  snd (fst (ast_step md n s tid hint)) = AstEvRet AstRDiscard ->
+  exists o, ast_pc_of s tid = Some (AstSendLen o) /\ aso_discard o = true /\ length (ast_tchan s) = n.
+Proof.
+  unfold ast_step, ast_pc_of. destruct (nth_error (ast_thr s) tid) as [th|] eqn:Eth; [|discriminate].
+  destruct th as [pc prog hs]. unfold ast_step_pc. cbn [ath_pc ath_prog ath_handles option_map].
+  destruct pc;
+    repeat first [progress (unfold ast_wait_ctx; ast_cbn) | match goal with
+    | |- context [match ?x with _ => _ end] => destruct x eqn:?
+    end]; cbn [fst snd]; intros H; try discriminate H.
+  exists o. apply andb_prop in Heqb. destruct Heqb as [A B]. apply Nat.eqb_eq in B. auto.
+Qed.
